@@ -59,6 +59,8 @@ def classify(x: int, y: int) -> str:
     if x > y:
         if x > 100:
             return "big"
+        if x - y == 4242:
+            return "magic"
         return "gt"
     elif x == y:
         return "eq"
@@ -176,7 +178,7 @@ def run(ctx: Ctx) -> None:
     if ctx.quick:
         specs = [{"module": "fit_sut_a", "algorithm": "DYNAMOSA", "seed": ctx.seed + 1, "iterations": 3}]
     else:
-        specs = [{"module": m, "algorithm": a, "seed": ctx.seed + sd, "iterations": 6}
+        specs = [{"module": m, "algorithm": a, "seed": ctx.seed + sd, "iterations": 10}
                  for m in SUTS for a in ("WHOLE_SUITE", "MOSA", "DYNAMOSA", "MIO") for sd in (1, 2)]
     for sp_ in specs:
         sp_["work"] = work
